@@ -37,6 +37,37 @@ pub fn tables_from(text: &str) -> Result<Tables, EngErr> {
     Ok(tables)
 }
 
+/// Tables from the SQL text of the specs; modifiers beyond the one the CREATE TABLE grammar can express per column
+/// (`Modifier::Combo`) are then set through the library API (`TableDefinition.columns[i].options`, all public fields).
+pub fn tables_from_specs(specs: &[&crate::ast::TableSpec]) -> Result<Tables, EngErr> {
+    use crate::ast::{Modifier, E};
+    let text: String = specs.iter().map(|s| s.text()).collect::<Vec<_>>().join(" ");
+    let parsed = tables_from(&text)?;
+    if specs.iter().all(|s| s.cols.iter().all(|c| c.api_only_parts().is_empty())) { return Ok(parsed); }
+    let r = guard(|| -> Result<Tables, String> {
+        let mut defs = Vec::new();
+        for spec in specs {
+            let mut def = parsed.get(&spec.name).ok_or_else(|| format!("table {} missing", spec.name))?.clone();
+            for c in &spec.cols {
+                let Some(col) = def.columns.iter_mut().find(|d| d.name == c.name) else { return Err(format!("column {} missing", c.name)); };
+                for m in c.api_only_parts() {
+                    match m {
+                        Modifier::NotNull => col.options.nullable = false,
+                        Modifier::Trim => col.options.trim = true,
+                        Modifier::Convert => col.options.convert = true,
+                        Modifier::Microseconds => col.options.microseconds = true,
+                        Modifier::Default(e) => col.options.default_value = Some(match e { E::Int(i) => sqlgrep::model::Value::Int(*i as i64), E::Real(x) => sqlgrep::model::Value::Float(sqlgrep::model::Float(*x)), E::Str(t) => sqlgrep::model::Value::String(t.clone()), E::Bool(b) => sqlgrep::model::Value::Bool(*b), _ => sqlgrep::model::Value::Null }),
+                        Modifier::None | Modifier::Combo(_) => {}
+                    }
+                }
+            }
+            defs.push(def);
+        }
+        Ok(Tables::with_tables(defs))
+    });
+    match r { Ok(Ok(t)) => Ok(t), Ok(Err(e)) => Err(EngErr::Err(e)), Err(p) => Err(EngErr::Panic(p)) }
+}
+
 #[derive(Debug, Clone)]
 pub struct RowsOut { pub columns: Vec<String>, pub rows: Vec<Vec<RV>> }
 
